@@ -562,6 +562,8 @@ func runC11(c *config) {
 	}
 	// character arrays through every constructor, over UTF-8 and non-UTF-8 byte strings (c11chars.go)
 	c11Chars(c, newRng(c.seed, "c11chars"), names)
+	// blocks referred to from outside their function, by name and by ID, among named and unnamed neighbours (c11blockref.go)
+	c11BlockRefs(c, names)
 	// a name is never mistaken for an ID: unnamed and "numerically named" globals side by side
 	for _, n := range []string{"0", "1", "42"} {
 		m := ir.NewModule()
